@@ -333,6 +333,9 @@ func execPr(op string) func(a []string) string {
 // and returns the history: inv resp w|r name value ok …
 var prRejectDelay int64
 
+// set by prHistory when the events of a concurrent history are not one per accepted write
+var prEventFail string
+
 func prHistory(r *Rand, threads, opsEach int) (string, string) {
 	if s := prReset(); s != "ok" {
 		return "", s
@@ -400,6 +403,37 @@ func prHistory(r *Rand, threads, opsEach int) (string, string) {
 		}(th)
 	}
 	wg.Wait()
+	// the subscriber of the property: every accepted write — whoever made it — has produced exactly one event
+	// carrying its value; a refused one none
+	t.eventsStr() // lets the last events arrive
+	seen := map[string]int{}
+	t.mu.Lock()
+	for _, e := range t.events[200] {
+		seen[e]++
+	}
+	t.mu.Unlock()
+	seen["i:1"]-- // the write that set the register up
+	for _, hs := range hist {
+		for _, h := range hs {
+			if h.kind != "w" {
+				continue
+			}
+			key := fmt.Sprintf("i:%d", h.val)
+			want := 0
+			if h.ok {
+				want = 1
+			}
+			if seen[key] != want {
+				prEventFail = fmt.Sprintf("the write of %d (accepted: %v) produced %d events; events: %v", h.val, h.ok, seen[key], t.events[200])
+			}
+			delete(seen, key)
+		}
+	}
+	for k, n := range seen {
+		if n != 0 {
+			prEventFail = fmt.Sprintf("%d events carrying %s, which nobody wrote; events: %v", n, k, t.events[200])
+		}
+	}
 	var parts []string
 	for _, hs := range hist {
 		for _, h := range hs {
@@ -413,7 +447,92 @@ func prHistory(r *Rand, threads, opsEach int) (string, string) {
 	return strings.Join(parts, " "), "ok"
 }
 
+// pr.burst <rounds> <seed>: in every round several writers — clients and the service — write one value each at
+// the same moment; every value is accepted.  The subscriber of the property gets, per round, every value exactly once.
+func execPrBurst(a []string) string {
+	rounds, _ := strconv.Atoi(a[0])
+	seed, _ := strconv.ParseUint(a[1], 10, 64)
+	r := NewRand(seed)
+	if s := prReset(); s != "ok" {
+		return s
+	}
+	t := prw.targets["custom"]
+	next := int64(1000)
+	for round := 0; round < rounds; round++ {
+		n := 4 + r.Intn(6)
+		vals := make([]int64, n)
+		for i := range vals {
+			next++
+			for prRejected(next) {
+				next++
+			}
+			vals[i] = next
+		}
+		t.mu.Lock()
+		base := len(t.events[200])
+		t.mu.Unlock()
+		start := make(chan struct{})
+		var wg sync.WaitGroup
+		errs := make(chan string, n)
+		for i, v := range vals {
+			wg.Add(1)
+			client := i == 0 || r.Chance(10)
+			go func(v int64, client bool) {
+				defer wg.Done()
+				<-start
+				var err error
+				if client {
+					err = t.obj.SetProperty(value.String("level"), value.Int(int32(v)))
+				} else {
+					err = t.update(200, v)
+				}
+				if err != nil {
+					errs <- err.Error()
+				}
+			}(v, client)
+		}
+		close(start)
+		wg.Wait()
+		select {
+		case e := <-errs:
+			return "fail:write-refused:" + e
+		default:
+		}
+		// the events of this round
+		deadline := time.Now().Add(2 * time.Second)
+		for {
+			t.mu.Lock()
+			got := len(t.events[200]) - base
+			t.mu.Unlock()
+			if got >= n || time.Now().After(deadline) {
+				break
+			}
+			time.Sleep(200 * time.Microsecond)
+		}
+		time.Sleep(300 * time.Microsecond)
+		t.mu.Lock()
+		evs := append([]string{}, t.events[200][base:]...)
+		t.mu.Unlock()
+		seen := map[string]int{}
+		for _, e := range evs {
+			seen[e]++
+		}
+		for _, v := range vals {
+			if seen[fmt.Sprintf("i:%d", v)] != 1 {
+				lastFailDetail = fmt.Sprintf("round %d: values written %v, events %v", round, vals, evs)
+				return fmt.Sprintf("fail:%d-events-for-one-write", seen[fmt.Sprintf("i:%d", v)])
+			}
+		}
+		if len(evs) != n {
+			lastFailDetail = fmt.Sprintf("round %d: values written %v, events %v", round, vals, evs)
+			return "fail:events-nobody-wrote"
+		}
+	}
+	return "ok"
+}
+
 func init() {
+	executors["pr.burst"] = execPrBurst
 	for _, op := range []string{"reset", "set", "get", "update", "events"} {
 		executors["pr."+op] = execPr(op)
 	}
@@ -498,6 +617,18 @@ func runC14(r *Rand, tier string, o *Out) {
 	for _, l := range []string{"pr.reset", "pr.set bomb name delay f 1", "pr.get bomb delay", "pr.set bomb name delay i 5", "pr.get bomb delay", "pr.events bomb"} {
 		o.Do("P", l, true)
 	}
+	// simultaneous writers and the events they cause
+	bursts := 3000
+	if tier == "thorough" {
+		bursts = 40000
+	}
+	for i := 0; i < 2; i++ {
+		line := fmt.Sprintf("pr.burst %d %d", bursts/2, r.U64()>>1)
+		if out := o.Do("P", line, true); out != "ok" {
+			o.Fail("property events of simultaneous writes are not one per write: "+strings.TrimPrefix(out, "fail:"), line+" => "+out+" "+lastFailDetail)
+		}
+		o.Count("write-bursts")
+	}
 	// concurrent histories on one register: clients and the service
 	hists := 60
 	if tier == "thorough" {
@@ -511,5 +642,9 @@ func runC14(r *Rand, tier string, o *Out) {
 		}
 		o.Op("P", "pr.lin 1 "+h, "lin", true)
 		o.Count("history")
+		if prEventFail != "" {
+			o.Fail("property events of a concurrent history are not one per accepted write", "pr.lin 1 "+h+" => "+prEventFail)
+			prEventFail = ""
+		}
 	}
 }
